@@ -154,7 +154,10 @@ class MusepackInfo(StreamInfo):
                 mandatory_packets.remove(frame_type)
                 self.__parse_replaygain_packet(fileobj, data_size)
             else:
-                fileobj.seek(data_size, 1)
+                try:
+                    fileobj.seek(data_size, 1)
+                except OverflowError:
+                    raise MusepackHeaderError("Invalid packet size.")
 
             frame_type = fileobj.read(key_size)
             check_frame_key(frame_type)
